@@ -309,3 +309,53 @@ def differentiate_outputs(ctx: Ctx) -> list[Ob]:
     if not out:
         out.append(unres("R7e", fq, "outputs<-sc.outputs", "no return through Circuit.from_operation found", f.loc))
     return out
+
+
+# ------------------------------------------------------------------------------- multiply outputs
+def multiply_outputs(ctx: Ctx) -> list[Ob]:
+    """R7e (multiply) -- output (i, j) of the product is output i of the first operand times output j
+    of the second: the outputs argument of ``Circuit.from_operation`` enumerates the pairs with the
+    outputs of ``sc1`` as the *outer* and those of ``sc2`` as the *inner* index
+    (``itertools.product(sc1.outputs, sc2.outputs)`` or two ``for`` clauses in that order)."""
+    from ..canon import FlowCanon
+
+    fq = FUNC + "multiply"
+    f = ctx.repo.func(fq)
+    g = ctx.memo("cfg:" + fq, lambda: build_cfg(f.node))
+    fc = ctx.memo("flowcanon:" + fq, lambda: FlowCanon(g))
+    p1, p2 = [p.name for p in f.params][:2]
+    out: list[Ob] = []
+    for n, st in g.stmts.items():
+        if not isinstance(st, ast.Return) or not isinstance(st.value, ast.Call):
+            continue
+        c = st.value
+        if not (dotted(c.func) or "").endswith("from_operation") or len(c.args) < 3:
+            continue
+        e = fc.expr(c.args[2], n)
+        site = f"{f.module.relpath}:{c.lineno}"
+        verdict = None
+        for x in ast.walk(e):
+            if isinstance(x, (ast.ListComp, ast.GeneratorExp)):
+                its = [unparse(gn.iter) for gn in x.generators]
+                outs = [t for t in its if t.endswith(".outputs") or ".outputs," in t or ".outputs)" in t]
+                if len(x.generators) == 1 and "product(" in its[0]:
+                    call = x.generators[0].iter
+                    args = [unparse(a) for a in call.args] if isinstance(call, ast.Call) else []
+                    if args == [f"{p1}.outputs", f"{p2}.outputs"]:
+                        verdict = verdict or "ok"
+                    elif args == [f"{p2}.outputs", f"{p1}.outputs"]:
+                        verdict = "swapped"
+                elif len(x.generators) == 2 and len(outs) == 2:
+                    if its == [f"{p1}.outputs", f"{p2}.outputs"]:
+                        verdict = verdict or "ok"
+                    elif its == [f"{p2}.outputs", f"{p1}.outputs"]:
+                        verdict = "swapped"
+        if verdict == "ok":
+            out.append(ok("R7e", fq, "outputs<-sc1.outputs x sc2.outputs", f"pairs enumerated with {p1}.outputs outer, {p2}.outputs inner", site))
+        elif verdict == "swapped":
+            out.append(viol("R7e", fq, "outputs<-sc1.outputs x sc2.outputs", f"the output pairs are enumerated with {p2}.outputs as the outer index: output i*n2+j of the product holds the pair (j, i) -- same number of outputs, same shapes, other functions whenever both operands have several outputs", site))
+        else:
+            out.append(unres("R7e", fq, "outputs<-sc1.outputs x sc2.outputs", f"the outputs argument `{unparse(e)[:70]}` is not in a recognised form", site))
+    if not out:
+        out.append(unres("R7e", fq, "outputs<-sc1.outputs x sc2.outputs", "no return through Circuit.from_operation found", f.loc))
+    return out
